@@ -34,24 +34,25 @@ func init() {
 var c05Kinds = []string{"user", "user", "user", "in-read", "in-event", "in-exception", "in-active", "read-failure", "sender-failure", "parent-context", "holder"}
 
 type lifeProbe struct {
-	mu          sync.Mutex
-	activeIn    []uint64
-	activeOut   []uint64
-	readIn      []uint64
-	inactive    []error
-	inactiveAt  []uint64
-	exceptions  []error
-	inRead      int32
-	nReads      int64
-	maxInRead   int32
-	reg         *closerReg
-	errRead     error
-	errEvent    error
-	errExc      error
-	errActive   error
-	closeActive bool
-	gate        func(string)
-	client      bool
+	mu            sync.Mutex
+	activeIn      []uint64
+	activeOut     []uint64
+	readIn        []uint64
+	inactive      []error
+	inactiveAt    []uint64
+	exceptions    []error
+	inRead        int32
+	nReads        int64
+	maxInRead     int32
+	reg           *closerReg
+	errRead       error
+	errEvent      error
+	errExc        error
+	errActive     error
+	closeActive   bool
+	gate          func(string)
+	client        bool
+	panicInactive bool
 }
 
 // closerReg attributes Close calls to goroutines.
@@ -142,7 +143,12 @@ func (p *lifeProbe) HandleInactive(ctx netty.InactiveContext, ex netty.Exception
 	p.mu.Lock()
 	p.inactive = append(p.inactive, ex)
 	p.inactiveAt = append(p.inactiveAt, mon.Tick())
+	boom := p.panicInactive
 	p.mu.Unlock()
+	if boom {
+		// an application's inactive handler may fail; the lifecycle guarantees must not depend on it
+		panic(errors.New("inactive handler failed"))
+	}
 	ctx.HandleInactive(ex)
 }
 
@@ -191,7 +197,7 @@ func c05Trial(c *core.Ctx, id string, idx int) {
 		errs[i] = fmt.Errorf("close-error-%d-%s", i, kinds[i])
 	}
 	reg := &closerReg{byGo: map[int64]error{}, has: map[int64]bool{}}
-	probe := &lifeProbe{reg: reg}
+	probe := &lifeProbe{reg: reg, panicInactive: rng.Intn(5) == 0}
 	parent, parentCancel := context.WithCancel(context.Background())
 	defer parentCancel()
 	holder := netty.NewChannelHolder(2)
@@ -438,6 +444,9 @@ func c05Trial(c *core.Ctx, id string, idx int) {
 	sig, _ := rig.S.Signature()
 	c.Sig(mode, fmt.Sprint(kinds), winnerKind, sig%64)
 	c.Count("winner_"+winnerKind, 1)
+	if probe.panicInactive {
+		c.Count("trials_with_failing_inactive_handler", 1)
+	}
 	if c.WantSample() && direct >= 2 {
 		c.Sample(map[string]interface{}{"case": id, "mode": mode.String(), "closers": kinds, "winner": winnerKind, "inactive_error": fmt.Sprint(probe.inactive), "marks": rig.S.LogString(40)})
 	}
